@@ -11,6 +11,8 @@ import time
 
 # property -> (harness modules, harness names)
 PROPS: dict[str, dict] = {
+    "C10": {"modules": ["vf.h_lower"], "harnesses": ["lower-args", "lower-yields"]},
+    "C16": {"modules": ["vf.h_presched"], "harnesses": ["presched"]},
     "C01": {"modules": ["vf.h_ctrl"], "harnesses": ["ctrl-C01"]},
     "C02": {"modules": ["vf.h_ctrl"], "harnesses": ["ctrl-C02"]},
     "C03": {"modules": ["vf.h_ctrl"], "harnesses": ["ctrl-C03"]},
